@@ -23,6 +23,7 @@ import GocoinV.Proofs.C02Legacy
 import GocoinV.Proofs.C02DelSig
 import GocoinV.Proofs.C02Tail
 import GocoinV.Proofs.C02Decode
+import GocoinV.Proofs.C02Life
 namespace GocoinV.Props.C02
 open GocoinV GocoinV.SigHash
 open GocoinV.Wire (Tx TxIn TxOut)
@@ -232,6 +233,68 @@ theorem cache_poisoned_after_panic :
   · simp [runCalls, step, taprootSigHash, tapSingleGet, tapSingleFill, taprootTail]
 
 
+/-! ### life cycle of the scratch struct across transaction objects (AllocVerVars / Clean) -/
+
+/-- Histories over SEVERAL transaction objects. For every list of transaction objects (each with one spent output
+    per input), every hash function and every finite history of `AllocVerVars()` (the caller then installs the
+    object's spent outputs, by assignment or by `append`), `Clean()` and digest requests (legacy, BIP143, taproot;
+    any arguments) on any of the objects, in any interleaving: with the code as written (`AllocVerVars` =
+    `new(TxVerVars)`, `Clean` drops the pointer) every digest request returns what the same request returns on a
+    fresh object of THAT transaction with an empty cache — nothing computed for one transaction object, before or
+    after a `Clean`, reaches another. (`runLifeSpec` keeps no struct at all, only "object i is allocated"; a request
+    on an object whose `TxVerVars` is nil is the legacy digest / a nil dereference on both sides.) -/
+theorem lifecycle_transparent (H : Bytes → Bytes) (objs : List Obj)
+    (hobjs : ∀ o ∈ objs, o.tx.ins.length ≤ o.spent.length) (evs : List Ev) :
+    runLife freshAlloc H objs (World.init objs.length ()) evs
+      = runLifeSpec H objs (List.replicate objs.length false) evs :=
+  runLife_sim freshAlloc (fun _ => True) freshAlloc_blank H objs hobjs evs _ _ (Sim.init H objs _ ()) trivial
+
+/-- The same for EVERY allocator discipline behind `AllocVerVars` / `Clean` (free list, pool, arena …) that, from
+    its reachable states `I`, only ever hands out blank structs: recycling the struct is invisible exactly when
+    what is handed out is indistinguishable from `new(TxVerVars)`. -/
+theorem lifecycle_transparent_any_allocator {σ : Type} (A : Allocator σ) (I : σ → Prop) (hA : A.Blank I) (s0 : σ)
+    (h0 : I s0) (H : Bytes → Bytes) (objs : List Obj)
+    (hobjs : ∀ o ∈ objs, o.tx.ins.length ≤ o.spent.length) (evs : List Ev) :
+    runLife A H objs (World.init objs.length s0) evs = runLifeSpec H objs (List.replicate objs.length false) evs :=
+  runLife_sim A I hA H objs hobjs evs _ _ (Sim.init H objs _ s0) h0
+
+/-- … in particular a free list whose `Clean` resets EVERY field of the struct it keeps. -/
+theorem pool_full_reset_transparent (reset : VerVars → VerVars) (hr : ∀ v, reset v = {}) (H : Bytes → Bytes)
+    (objs : List Obj) (hobjs : ∀ o ∈ objs, o.tx.ins.length ≤ o.spent.length) (evs : List Ev) :
+    runLife (poolAlloc reset) H objs (World.init objs.length []) evs
+      = runLifeSpec H objs (List.replicate objs.length false) evs :=
+  lifecycle_transparent_any_allocator (poolAlloc reset) _ (poolAlloc_blank reset hr) []
+    (by intro v hv; cases hv) H objs hobjs evs
+
+/-- a reset that clears everything except `tapOutSingleHash` (BIP341 sha_outputs) -/
+def forgetfulReset (v : VerVars) : VerVars := { cache := { tapOutSingle := v.cache.tapOutSingle }, spent := [] }
+
+def lifeTxA : Tx :=
+  { version := 2, lockTime := 0, witness := none,
+    ins := [{ prevHash := List.replicate 32 1, prevIdx := 0, scriptSig := [], sequence := 0xffffffff }],
+    outs := [{ value := 1000, pkScript := [0x51] }] }
+def lifeTxB : Tx := { lifeTxA with outs := [{ value := 2000, pkScript := [0x52] }] }
+def lifeObjs : List Obj :=
+  [⟨lifeTxA, [{ value := 5000, pkScript := [0x51] }]⟩, ⟨lifeTxB, [{ value := 5000, pkScript := [0x51] }]⟩]
+/-- digest on A, `A.Clean()`, `B.AllocVerVars()`, the same digest request on B -/
+def lifeEvs : List Ev :=
+  [.alloc 0 .assign, .call 0 (.tap {} 0 0x81 false), .clean 0, .alloc 1 .append, .call 1 (.tap {} 0 0x81 false)]
+
+/-- The hypothesis "hands out blank structs only" cannot be dropped: with a free list whose reset forgets ONE cached
+    field (`tapOutSingleHash`), the two-object history `lifeEvs` gives transaction B a taproot digest that commits
+    to the outputs of the cleaned transaction A — for every hash function that tells the two output lists apart.
+    (The harness drives such histories against the real `AllocVerVars` / `Clean`, go/cmd/c02/life.go.) -/
+theorem pool_partial_reset_counterexample (H : Bytes → Bytes)
+    (h : H (outputsBytes lifeTxA) ≠ H (outputsBytes lifeTxB)) :
+    runLife (poolAlloc forgetfulReset) H lifeObjs (World.init 2 []) lifeEvs
+      ≠ runLifeSpec H lifeObjs [false, false] lifeEvs := by
+  intro he
+  apply h
+  simp [runLife, runLifeSpec, lifeStep, specStep, lifeEvs, lifeObjs, World.init, poolAlloc, forgetfulReset, step,
+    taprootSigHash, taprootTail, lazyGet, lifeTxA, lifeTxB] at he
+  simp [lifeTxA, lifeTxB]
+  exact he.1
+
 /-! ### non-vacuity -/
 
 /-- a transaction with two inputs and one output used by the examples -/
@@ -265,5 +328,14 @@ example : (delSig ((0x4d :: 0 :: 1 :: List.replicate 256 7) ++ [0xac]) (List.rep
 example : (witnessSigHash (fun b => b) exTx {} [0xac] 1 0 1).2.hashPrevouts.isSome = true := by decide
 -- cache_transparent: its hypothesis holds for exTx / exSpent
 example : exTx.ins.length ≤ exSpent.length := by decide
+
+-- lifecycle_transparent / …_any_allocator / pool_full_reset_transparent: the hypothesis holds for lifeObjs, the
+-- history really hands a struct from A to B (pool non-empty after the clean) and the last request is a digest
+example : ∀ o ∈ lifeObjs, o.tx.ins.length ≤ o.spent.length := by decide
+example : (runLife (poolAlloc fun _ => {}) (fun b => b) lifeObjs (World.init 2 []) lifeEvs).length = 5 := by decide
+example : ∃ p d, (runLifeSpec (fun b => b) lifeObjs [false, false] lifeEvs).getLast? = some (some (.hashed p d)) :=
+  ⟨_, _, rfl⟩
+-- pool_partial_reset_counterexample: its hypothesis holds for the identity "hash"
+example : (fun b : Bytes => b) (outputsBytes lifeTxA) ≠ (fun b : Bytes => b) (outputsBytes lifeTxB) := by decide
 
 end GocoinV.Props.C02
